@@ -257,6 +257,9 @@ func (x *Exec) enterLoop(fr *Frame, li *loopInfo, in *State) {
 			if v, ok := in.ghost[g]; ok && !mods["g:"+g] {
 				in.ghost[g] = x.smt.freshLike(v, g)
 			}
+			if v, ok := in.ghost[g+"#n"]; ok && !mods["g:"+g+"#n"] {
+				in.ghost[g+"#n"] = x.smt.freshLike(v, g+"#n")
+			}
 		}
 	}
 	in.pc = x.smt.def("pc", SBool, in.pc)
@@ -393,6 +396,7 @@ func (x *Exec) step(fr *Frame, st *State, ins ssa.Instruction, edgeState map[[2]
 			x.note("interior scalar pointer stored")
 		}
 		x.safeNonNil(fr, st, p, ins.Pos(), "store")
+		x.frameWrite(fr, st, p, ins.Pos())
 		x.store(st, p, v)
 	case *ssa.UnOp:
 		fr.reg[ins] = x.unop(fr, st, ins)
@@ -433,6 +437,7 @@ func (x *Exec) step(fr *Frame, st *State, ins ssa.Instruction, edgeState map[[2]
 		if x.sweep {
 			x.safe(fr, st, Not(Eq(mv.Ref, NilRef)), "nilmap", ins.Pos(), "write to nil map")
 		}
+		x.frameRef(fr, st, mv.Ref, "map update", ins.Pos())
 		x.mapStore(st, mv, x.val(fr, st, ins.Key), x.val(fr, st, ins.Value))
 	case *ssa.MakeMap:
 		ref := x.newRefIn(fr, st, "map")
@@ -598,6 +603,52 @@ func (x *Exec) newRef(hint string) Term {
 	id := x.smt.fresh("ref."+hint, SInt)
 	x.smt.assume(And("(< "+id+" 0)", Eq(App("asite", id), IntLit(int64(x.nAlloc)))))
 	return "(base " + id + ")"
+}
+
+// frameWrite / frameRef: under "frame fresh-only" every heap write of the function under proof
+// must target memory allocated by this activation (allocation ids are negative).
+func (x *Exec) frameWrite(fr *Frame, st *State, p PtrV, pos token.Pos) {
+	if p.Cell != nil {
+		return
+	}
+	ref := p.Ref
+	if p.Leaf != nil {
+		ref = p.Leaf.idx[0]
+	}
+	x.frameRef(fr, st, ref, "store", pos)
+}
+
+func (x *Exec) frameRef(fr *Frame, st *State, ref Term, what string, pos token.Pos) {
+	if x.root == nil || x.root.spec == nil || x.root.spec.Frame == "" || x.inInit {
+		return
+	}
+	goal := "(< (rootid " + ref + ") 0)"
+	if ref == "" {
+		goal = "false"
+	} else if strings.HasPrefix(x.root.spec.Frame, "writes ") {
+		// writes to the named parameters' objects are allowed as well
+		alts := []Term{goal}
+		for _, pn := range strings.Fields(strings.TrimPrefix(x.root.spec.Frame, "writes ")) {
+			if pv, ok := x.root.params[pn]; ok {
+				switch v := pv.(type) {
+				case MapV:
+					alts = append(alts, Eq(ref, v.Ref))
+				default:
+					if r, ok := objRef(pv); ok {
+						alts = append(alts, Eq(ref, r))
+					}
+				}
+			}
+		}
+		goal = Or(alts...)
+	}
+	label := x.exprTextAt(fr, pos)
+	if label == "" {
+		label = what
+	}
+	o := &Obligation{Kind: "frame", Fn: x.fnKey, Anchor: "fresh-only", Label: label, PC: st.pc, Goal: goal,
+		Src: "frame " + x.root.spec.Frame + ": " + what + " targets memory allocated by this call (or a listed parameter)", Pos: x.pos(pos), Props: allProps(x.root.spec)}
+	x.addObligation(o)
 }
 
 // goEffect over-approximates what a started goroutine may do to the state the spawning
